@@ -76,6 +76,11 @@ def gen_any_labels(rng):
         labels.insert(rng.below(len(labels) + 1), rng.bytes(rng.choice([64, 65, 100])))
     elif m == 2:
         labels = labels + [b""]
+    elif m == 3:
+        # multi-octet UTF-8 characters: character counts and octet counts differ around the limits
+        ch = rng.choice(["\u00fc", "\u00e9", "\u20ac", "\U0001f600"]).encode("utf-8")
+        k = rng.choice([31, 32, 21, 22, 15, 16, 10, 63 // len(ch), 63 // len(ch) + 1])
+        labels = [ch * k for _ in range(rng.choice([1, 1, 2, 4, 5]))] + ([b"abc"] if rng.chance(1, 2) else []) + [b""]
     return labels
 
 
@@ -228,6 +233,17 @@ def eval_case(ctx: Ctx, c: dict):
         ctx.count("validate." + r.split(" ")[1] if not r.startswith("ok") else "validate.ok")
         if r.startswith("ok") != wf(labels):
             ctx.fail("C01/constructor/closure", f"Name({labels!r}) -> {r}", rep)
+        # str labels are converted to their UTF-8 octets first: the limits are on octets, whatever the input type
+        try:
+            slabels = [l.decode("utf-8") for l in labels]
+        except UnicodeDecodeError:
+            slabels = None
+        if slabels is not None:
+            for variant, lab in (("str", slabels), ("mixed", [s_ if i % 2 else b_ for i, (s_, b_) in enumerate(zip(slabels, labels))]), ("tuple", tuple(labels))):
+                rs, _ = outcome(lambda: dns.name.Name(lab), lambda x: enc_labels(x.labels))
+                if rs != r:
+                    ctx.fail(f"C01/constructor/{variant}-labels-differ", f"Name({lab!r}) -> {rs} but with bytes labels -> {r}", rep)
+            ctx.count("validate.str-compared")
     elif k == "wire":
         labels = [bytes.fromhex(x) for x in c["labels"]]
         pre, post = bytes.fromhex(c["pre"]), bytes.fromhex(c["post"])
